@@ -302,7 +302,17 @@ impl Space for YmDiff {
         if (a.0, a.1) != (b.0, b.1) {
             out.nontrivial += 1;
         }
+        // the first of -271821-04 is not a representable date, so the specification's own algorithm (a date
+        // difference from the first of both months) cannot start from or reach that year-month although it is
+        // inside the year-month limits: differences with it are not judged (as for add/subtract above)
+        let edge = (a.0, a.1) == (-271_821, 4) || (b.0, b.1) == (-271_821, 4);
+        if edge {
+            out.unjudged += 1;
+        }
         for (uname, ui, um) in [("year", Some(Unit::Year), DUnit::Year), ("month", Some(Unit::Month), DUnit::Month), ("auto", Some(Unit::Auto), DUnit::Year), ("absent", None, DUnit::Year)] {
+            if edge {
+                break;
+            }
             let attrs = || {
                 vec![
                     ("a", format!("{}-{:02} ref {:?}", a.0, a.1, a.2)),
@@ -326,6 +336,9 @@ impl Space for YmDiff {
         // rounded differences: the months are counted from the first of both months whatever the hidden reference
         // day, then rounded relative to the first of the receiver's month (model: relative rounding R5r)
         for (largest, smallest) in [(0usize, 0usize), (0, 1), (1, 1)] {
+            if edge {
+                break;
+            }
             for inc in [1i64, 2, 5] {
                 for mode in tmc_ref::r4::ALL_MODES {
                     let attrs = || {
@@ -492,8 +505,12 @@ impl Space for MonthDays {
 
 pub fn spaces(env: &Env) -> Vec<Box<dyn Space>> {
     let mut vals: Vec<(i64, u8, Option<u8>)> = vec![];
-    for y in [-271_821i64, -1, 0, 2019, 2020, 2021, 275_760] {
-        for m in [1u8, 2, 3, 6, 9, 12] {
+    let (diff_years, diff_months): (Vec<i64>, Vec<u8>) = match env.tier {
+        Tier::Quick => (vec![-271_821, -1, 0, 2019, 2020, 2021, 275_760], vec![1, 2, 3, 6, 9, 12]),
+        Tier::Thorough => (vec![-271_821, -271_820, -1, 0, 1, 1999, 2000, 2019, 2020, 2021, 2024, 275_759, 275_760], (1..=12).collect()),
+    };
+    for y in diff_years {
+        for m in diff_months.iter().copied() {
             if year_month_in_limits(y, m) {
                 vals.push((y, m, None));
             }
